@@ -92,6 +92,7 @@ def coverage (x : IState) : String :=
     (regenStep idxName c.respOf s kv, ex', (if old.isEmpty then merged else merged + 1), dd + (all.length - ds.length), va'))
     ({ x with index := c.index }, 0, 0, 0, 0)
   let o := ingest idxName id x
+  let q := pass1 o.index.manifests
   let rec iters (fuel : Nat) (a : Scan) (n nested : Nat) : Nat × Nat :=
     match fuel with
     | 0 => (n, nested)
@@ -100,10 +101,10 @@ def coverage (x : IState) : String :=
       | none => (n, nested)
       | some a' =>
         let isNested := match a.queue with
-          | c :: _ => !(p.scan.any (·.dig = c.dig))
+          | c :: _ => !(q.scan.any (·.dig = c.dig))
           | [] => false
         iters fuel a' (n + 1) (if isNested then nested + 1 else nested)
-  let (it, nested) := iters 10000 { queue := p.scan, seen := p.seen, children := [] } 0 0
+  let (it, nested) := iters 10000 { queue := q.scan, seen := q.seen, children := [] } 0 0
   s!"tags={p.digestTags.length} skip={skip} adopt={adopt} requeue={c.rm.length} clash={clash} regen={c.addResp.length} exists={ex} merged={merged} viaAdopt={viaAdopt} dedup={dd} scan={it} nested={nested} children={o.index.children.length}"
 
 def runIngest (df : Def) (store : String) : String :=
